@@ -3,6 +3,10 @@
 import json, os
 root = os.path.dirname(os.path.dirname(os.path.abspath(__file__)))
 CHECKS = [
+ dict(id="C05", level="exploration", engine="gen + inputs + bcv (subprocess, watchdog)", design="§5 C05",
+      technique="bounded exhaustive input enumeration (all lexeme strings and byte strings up to a length, all single-lexeme mutations of seeds, all fragment pairs, capacity boundary programs) with a structural bytecode verifier as oracle",
+      text="Every string of <= 3 lexemes over 48 lexemes and <= 4 over 20 (thorough 4 / 5), every byte string of length <= 2 (thorough 3), the C02/C03 corpora under 60 option combinations (optimizer budget, tracing, module map, Compile / Eval / imported module), programs at limit-1/limit/limit+1 of every operand width, every single-lexeme deletion/duplication/replacement of 40 seeds, and every ordered pair of 66 fragments through one Eval session are compiled: no panic, no fatal error, return within 10 s, well-formed bytecode on success (operands, targets, indexes in range, NumLocals <= 256), an error beyond a capacity limit.",
+      note="Nesting depths beyond 10000 are not explored (the optimizer is polynomial in the depth, which is slowness, not non-termination)."),
  dict(id="C18", level="fault_enumeration", engine="inputs (subprocess, ulimit, allocation meter)", design="§5 C18",
       technique="exhaustive fault enumeration over fixed encodings: every truncation, every single-byte corruption, windowed double-byte corruptions, all short bodies; oracle evaluated on every fault",
       text="Version-2 and version-1 encodings of 7 programs (every constant kind, closures, try tables, 2-file file set, source + builtin modules) and object-level encodings of 18 value kinds (incl. gob-fallback values) are subjected to every truncation, every single-byte corruption (255 values per position), double-byte corruptions in a window and every body of <= 2 (thorough 3) bytes behind both headers, through DecodeBytecodeFrom, Bytecode.UnmarshalBinary, DecodeObject and the type's own UnmarshalBinary. No panic, no fatal error, no hang, allocation <= 256 KiB + 512 x len(input).",
